@@ -470,6 +470,19 @@ func nativeBuild(pkg, entry, tmp string) (string, string) {
 	return bin, ""
 }
 
+func uniqSorted(xs []string) []string {
+	seen := map[string]bool{}
+	var r []string
+	for _, x := range xs {
+		if !seen[x] {
+			seen[x] = true
+			r = append(r, x)
+		}
+	}
+	sort.Strings(r)
+	return r
+}
+
 func truncateStr(s string, n int) string {
 	if len(s) > n {
 		return s[:n] + "…"
@@ -562,7 +575,7 @@ func SelfTest(id string, e EntrySpec, bounds map[string]int, cases []interp.Self
 				failed = append(failed, ln)
 			}
 		}
-		ok := len(failed) == 0 && strings.Join(covers, ",") == strings.Join(c.Covers, ",") && strings.Contains(txt, "PASS")
+		ok := len(failed) == 0 && strings.Join(uniqSorted(covers), ",") == strings.Join(uniqSorted(c.Covers), ",") && strings.Contains(txt, "PASS")
 		if ok {
 			agree++
 		} else {
